@@ -488,6 +488,11 @@ class PowerSystem(PowerNetwork):
         None
 
         """
+        # The sections follow the lines downstream from the feeding point.
+        # Load flows of islanded parts re-orient lines, the orientation
+        # the network was built with is restored first
+        for line in self.lines:
+            line.restore_direction()
         for network in self.child_network_list:
             if not isinstance(network, Transmission):
                 parent_section = create_sections(network.connected_line)
